@@ -1,4 +1,5 @@
 import Tw.Proofs.ConnFairH6
+import Tw.Proofs.ConnChunks6
 
 /-!
 # 0.6: from a reachable world with one connecting side to a quiescent one
@@ -278,6 +279,23 @@ theorem open_progress6_x (tl : Bool) (draws : List Nat) (alt : (proto6 tl).Alt) 
       have hcb : w.b.conn = ⟨.online t o, w.b.conn.send⟩ := by rw [← hsb]; rfl
       exact key t o (by rw [hsb]; rfl) (by rw [hsb]; rfl) (Or.inl ⟨_, hcb⟩)
     | disconnected => exact absurd hsb hdb
+
+/-- **C02 (c), 0.6, handshake included, from every reachable world with one connecting side**: in
+every world reachable by an admissible schedule from `World.init` in which `a` has called `connect`
+(it has sent a `Connect`), `b` has not, and neither is disconnected, at most five rounds of the fair
+suffix (ticks at the reported deadlines, every datagram delivered; `b` can draw a token from `draws`)
+end with `a` online and told `Ready`, everything handed over and acknowledged on both sides, and all
+queues empty. -/
+theorem open_progress6 (tl : Bool) (draws : List Nat) (alt : (proto6 tl).Alt) (nt : Nat)
+    (hnt : tokenRandom draws = some nt) (sched : List (Move (proto6 tl))) (w : World (proto6 tl))
+    (hadm : admissible (World.init (proto6 tl)) sched = true)
+    (hrun : NetSim.run (World.init (proto6 tl)) sched = some w)
+    (ha : hasConnect w.a) (hb : ¬ hasConnect w.b)
+    (hda : w.a.conn.state ≠ .disconnected) (hdb : w.b.conn.state ≠ .disconnected) :
+    ∃ k, k ≤ 5 ∧ ∃ s', fairRoundsT draws alt k (FairState.start w) = some s' ∧ s'.w.quiescentH ∧
+      (∃ t o s, s'.w.a.conn = ⟨.online t o, s⟩) ∧ Event.ready ∈ s'.w.a.events :=
+  open_progress6_x tl draws alt nt hnt sched w hadm hrun ha hb hda hdb
+    (fun hc t o => no_online_acceptor_while_connecting6 tl sched w hrun .a hc hb t o)
 
 /-! non-vacuity: (1) `a` has just called `connect`, `b` is untouched: five rounds, `a` online and told
 `Ready` once, `b` pending (0.6 acceptors go online with the first chunk packet); (2) `a` is online
